@@ -289,6 +289,10 @@ def run(R):
     R.need(fl is not None, "anchor vanished: BatchBase.flush")
     _flush_guard(R, fl, "C05.FLUSH-GUARD")
 
+    # ANSWERED: a flush body that raises still answers every item (captured, stored, delivered) --------
+    from ..cfg import ExcHierarchy
+    from .c02 import batch_err
+    batch_err(R, ro, "C05.ANSWERED", ExcHierarchy(R.repo))
     # ITEM-ONCE -------------------------------------------------------------------------
     comp = bb.methods.get("_computed")
     R.need(comp is not None, "anchor vanished: BatchBase._computed")
